@@ -10,7 +10,7 @@ TYPES = {"BranchTypeError"}
 
 
 def run(ctx: Ctx) -> int:
-    n, depth, nfixed = ctx.pick(70, 1200), ctx.pick(2, 3), 13
+    n, depth, nfixed = ctx.pick(70, 1200), ctx.pick(2, 3), 20
     B = 6
     base = {"VERIF_C08_N": n, "VERIF_C08_SEED": ctx.seed, "VERIF_C08_DEPTH": depth}
     jobs = []
@@ -53,7 +53,7 @@ def run(ctx: Ctx) -> int:
     ctx.bounds = {"programs": f"{n} generated (seed {ctx.seed}, depth {depth}) + {nfixed} fixed: assignments of int/bool/float/tuple constants and copies to a, b, c, type-agnostic reads (generic sink), "
                               "if/else, while, for over range, break, continue, return, nesting depth as given",
                   "paths": "definedness: all decision vectors of up to 8 conditions; types: all pairs of vectors of up to 6 conditions (symbolic)"}
-    ctx.outside_claim = ["statements after a jump (dead code is analysed by the compiler as if reachable; not part of the path reading)", "nested function definitions reading outer variables (capturing closures are an experimental feature)",
+    ctx.outside_claim = ["reads inside dead code (statements after a jump, bodies of `if False:`): the compiler analyses them as if reachable; assignments in dead code ARE in (they make the name a local, as in Python)", "nested function definitions reading outer variables (capturing closures are an experimental feature)",
                          "the wording, labels and spans of the diagnostic (only its class)", f"programs rejected for another reason ({len(other)} in this run)"]
     ctx.assumptions = ["every syntactic path is feasible (conditions are opaque calls; `for` bodies may run zero times), the reading the property prescribes",
                        "lib/e8.py oracle is the executable statement of 'reaches a read unassigned' and 'one read site, two types'"]
